@@ -86,6 +86,7 @@ Judge(t) ==
              \cup (IF t.g0_after # t.g0 \/ ~t.input_annotations_same THEN {"input_network_modified"} ELSE {})
              \cup (IF SetOf(t.vout) # nt.V THEN {"vertex_set_changed"} ELSE {})
              \cup (IF ~t.output_annotations_same THEN {"vertex_annotations_changed"} ELSE {})
+             \cup (IF t.gout_again # t.gout THEN {"returned_graph_changed_by_a_later_rewire"} ELSE {})
         forbiddenIO == {e \in DOMAIN out \ DOMAIN g0 : ~Allowed(nt, out, e)}
         S == t.steps
         \* graph in force at step i = last snapshot at or before i
